@@ -423,7 +423,15 @@ impl Compiler {
     fn compile_positive_lookaround(&mut self, inner: &Info<'_>, la: LookAround) -> Result<()> {
         let save = self.b.newsave();
         self.b.add(Insn::Save(save));
+        // A look-around is atomic: once its body matched, later failures must not backtrack into
+        // it. A delegated (easy) body is atomic by itself, a VM-compiled one needs the cut.
+        if inner.hard {
+            self.b.add(Insn::BeginAtomic);
+        }
         self.compile_lookaround_inner(inner, la)?;
+        if inner.hard {
+            self.b.add(Insn::EndAtomic);
+        }
         self.b.add(Insn::Restore(save));
         Ok(())
     }
